@@ -4,9 +4,9 @@ Case = initial tree + list of abstract operations interpreted on one long-lived 
   through rope : create file / folder / package, write, move, remove, perform a Rename change set, undo, redo
   behind its back (os / shutil, mtime from a strictly increasing counter) followed by project.validate()
   queries that warm caches: file lists, find_module, module source, attribute keys, definition locations,
-           attribute sets of the objects names refer to, find_occurrences
+           attribute sets of the objects names refer to, find_occurrences, and (one case in three) the auto-import index
 Oracle after every mutation: observe(long-lived project) == observe(Project(same directory)), where observe is the
-plain-data image of all those queries.
+plain-data image of all those queries; the auto-import index is compared with one built from scratch on a copy of the tree.
 """
 import os
 import shutil
@@ -19,15 +19,18 @@ PID = "C13"
 LEVEL = "exploration"
 TECHNIQUE = "model-free differential state testing: op sequences on a long-lived project compared, after every mutation, with a freshly opened project on the same directory (Hypothesis op lists)"
 RULE = (
-    "tree of 3-5 modules importing each other (+ a package); 6-16 ops from rope-side mutations (create/write/move/remove/"
-    "rename-refactoring/undo/redo), external mutations + validate(), and cache-warming queries; the full observation is compared "
-    "with a fresh project after every mutation; non-trivial = history in which a query touched a module before that module or one "
-    "it imports was mutated, and which contains an external change; distinct by op list"
+    "tree of 6-8 modules in two packages importing each other (+ a non-Python file); 6-16 ops from rope-side mutations (create/write/"
+    "move/remove/rename-refactoring/undo/redo/renaming a file into or out of being a module), outside mutations + validate() (incl. "
+    "edits that leave an OLDER mtime), and cache-warming queries, with targets biased towards what was touched last and three short "
+    "motifs; the full observation (file lists, find_module, per module source / names / definitions / attribute sets / occurrences, "
+    "and on one case in three the auto-import index) is compared with a fresh project after every mutation; non-trivial = history "
+    "in which a query touched a module before that module or one it imports was mutated, and which contains an outside change; "
+    "distinct by op list"
 )
 ASSUMPTIONS = [
-    "external edits get strictly increasing mtimes (real edits happen later in time), so (mtime, size) change detection is not defeated by timer granularity",
-    "after an external change the documented protocol is followed: project.validate(project.root)",
-    "AutoImport's sqlite index is not part of this check's observation (its cache lives in a per-path shared in-memory database)",
+    "outside edits change the (mtime, size) pair rope remembers (mtimes come from two counters: later than, or earlier than, every file of the tree)",
+    "after an outside change the documented protocol is followed: project.validate(project.root)",
+    "the fresh auto-import index is built on a byte-identical COPY of the tree (in-memory indexes are shared per project path); ProcessPoolExecutor is replaced by an inline executor inside the forked workers",
 ]
 BUDGET = {"quick": (2400, 300), "thorough": (40000, 3000)}
 
